@@ -148,6 +148,19 @@ def c02(tier):
                 note="melda.rs refresh / reload / check_delta / mark_valid_deltas / apply_delta / load_raw_delta, datastorage.rs refresh / reload from MIR")
 
 
+def c09(tier):
+    jobs = [Job("h_c09::commit_faults", (4, 1), dict(S2), budget_s=3000, validate=30),
+            Job("h_c09::commit_faults", (4, 2), dict(S2), budget_s=3000, validate=30),
+            Job("h_c09::meld_faults", (4,), dict(S2), budget_s=3000, validate=30)]
+    if tier != "quick":
+        jobs += [Job("h_c09::commit_faults", (8, 2), dict(S2), budget_s=3000, validate=30), Job("h_c09::meld_faults", (8,), dict(S2), budget_s=3000, validate=30)]
+    return dict(jobs=jobs, bounds={"commit": "second commit of a replica (document among k orders, one symbolic value); 1 or 2 injected failures among its write calls incl. the same write failing again on the retry; every write boundary reopened",
+                                   "meld": "two commits melded into a replica holding the base; 1 or 2 of the 4 copy writes fail; refresh; every write boundary reopened; meld repeated"},
+                assumptions=S2_ASSUME + ["each item write is atomic (fully present or absent): the fault-injecting backend wraps the real MemoryAdapter",
+                                         "'same durable result' compares documents, values and conflict sets, not block identifiers"],
+                note="melda.rs commit / meld / refresh / reload, datastorage.rs pack from MIR; harness-side FaultAdapter implements melda::adapter::Adapter")
+
+
 def c12(tier):
     combos = [(10, 0), (2, 1)] if tier == "quick" else [(10, 0), (2, 1), (5, 1)]
     jobs = [Job("h_c12::maintenance", c, dict(S2), budget_s=3000, validate=30) for c in combos]
@@ -200,4 +213,4 @@ def c10(tier):
                 note="melda.rs reload / fetch_raw_delta / load_raw_delta / check_delta, datastorage.rs try_load_pack / read_raw_value from MIR")
 
 
-PROPS = {"C02": c02, "C04": c04, "C12": c12, "C13": c13, "C14": c14, "C07": c07, "C10": c10, "C08": c08, "C03": c03, "C06": c06, "C16": c16, "C19": c19, "C05": c05, "C15": c15}
+PROPS = {"C02": c02, "C09": c09, "C04": c04, "C12": c12, "C13": c13, "C14": c14, "C07": c07, "C10": c10, "C08": c08, "C03": c03, "C06": c06, "C16": c16, "C19": c19, "C05": c05, "C15": c15}
